@@ -28,7 +28,7 @@ Record Inv (s : sys) : Prop := {
   i_handed : handed_ok (p_log (sP s)) (toCons s) (K (sC s))
 }.
 
-Lemma Inv_init notify : Inv (sys_init sess notify W).
+Lemma Inv_init notify fx : Inv (sys_init sess notify W fx).
 Proof.
   constructor; cbn.
   - apply PInv_init.
@@ -109,7 +109,7 @@ Proof.
   cbn [run fold_left]. apply IH; [apply step_inv; assumption|assumption].
 Qed.
 
-Theorem reach_inv notify ops : forallb legit ops = true -> Inv (run (sys_init sess notify W) ops).
+Theorem reach_inv notify fx ops : forallb legit ops = true -> Inv (run (sys_init sess notify W fx) ops).
 Proof. intros. apply run_inv; [apply Inv_init|assumption]. Qed.
 
 
